@@ -62,21 +62,27 @@ def _get_last_result(
 
 
 def _update_optimal_result(
-    optimal_result: FunctionResults | None,
+    optimal_transformed_result: FunctionResults | None,
     results: tuple[Results, ...],
     transformed_results: tuple[Results, ...],
     constraint_tolerance: float | None,
-) -> FunctionResults | None:
+) -> tuple[FunctionResults | None, FunctionResults | None]:
+    # The comparison is done on the results in the optimizer domain, since that
+    # is what the optimizer minimizes. Returns the new optimal result, if any,
+    # together with its counterpart in the optimizer domain.
     return_result: FunctionResults | None = None
     for item, transformed_item in zip(results, transformed_results, strict=False):
         if (
             isinstance(transformed_item, FunctionResults)
             and transformed_item.functions is not None
+            and not np.isnan(transformed_item.functions.weighted_objective)
             and not _violates_constraint(transformed_item, constraint_tolerance)
         ):
             assert isinstance(item, FunctionResults)
-            new_optimal_result = _get_new_optimal_result(optimal_result, item)
+            new_optimal_result = _get_new_optimal_result(
+                optimal_transformed_result, transformed_item
+            )
             if new_optimal_result is not None:
-                optimal_result = new_optimal_result
-                return_result = new_optimal_result
-    return return_result
+                optimal_transformed_result = new_optimal_result
+                return_result = item
+    return return_result, optimal_transformed_result
